@@ -59,6 +59,21 @@ claim("C02", "proof", "Lean 4 theorems about the ghost-cell law and its index bo
       COMMON_NOTE + "sympy/numba compilation of expression conditions is external (validated by the correspondence only).",
       "DESIGN.md section 6, C02")
 
+claim("C05", "proof", "Lean 4 telescoping theorems (induction on the number of cells) + integral correspondence and monitors",
+      "The volume-weighted sums of the Laplacian (Cartesian 1-d/2-d, polar, conservative spherical, cylindrical) and of the "
+      "divergence (Cartesian, conservative spherical) are proved, for any number of cells, spacing, inner radius and field "
+      "content, to equal the boundary fluxes (flux forms, also for the polar and cylindrical kernels that are not written in "
+      "flux form), hence to vanish under zero-flux, periodic, or vanishing-normal-component ghost cells (linked to the C02 "
+      "ghost-cell model) and for r_min = 0 without any inner condition; explicit witnesses show that the plain spherical "
+      "Laplacian, the polar divergence and one-sided divergences do not conserve, which delimits the property; an abstract "
+      "theorem shows that every update of the form u + sum c_j F(w_j) keeps a linear integral whose rate integrals vanish, for "
+      "any number of steps. The model's integral (BC model + stencil model + volumes, exact rationals) is compared with "
+      "field.laplace(bc).integral / field.divergence(bc).integral under arbitrary, also non-conserving, conditions; the zero "
+      "monitor runs on every grid class incl. 3-d and holes, and Diffusion/Cahn-Hilliard simulations with every solver are "
+      "monitored after every step.",
+      COMMON_NOTE + "3-d Cartesian and the simulation-level statement for the concrete solver loops are covered by the "
+      "abstract theorem plus monitors (the per-solver instantiation is in C06).", "DESIGN.md section 6, C05")
+
 # properties not (yet) decided by the machinery
 NOT_APPLICABLE = {}
 
